@@ -326,6 +326,7 @@ type RespSpec struct {
 	H         [][2]string   // header fields; "Date" handled via DateOff/NoDate unless given here
 	Body      []byte        // nil → token body
 	NoTok     bool          // do not mint a token (e.g. 304)
+	FailOnce  bool          // BodyErr is returned by ONE Read at FailAt; later Reads deliver the rest
 	Delay     time.Duration // virtual latency before the response is returned
 	DateOff   time.Duration // Date = now(after delay) + DateOff
 	NoDate    bool
@@ -409,7 +410,7 @@ func (o *Origin) Respond(call *Call, s RespSpec) *http.Response {
 		resp.ContentLength = -1
 	}
 	if s.BodyErr != nil {
-		resp.Body = &failingBody{data: body, failAt: s.FailAt, err: s.BodyErr}
+		resp.Body = &failingBody{data: body, failAt: s.FailAt, err: s.BodyErr, once: s.FailOnce}
 	} else {
 		resp.Body = io.NopCloser(bytes.NewReader(body))
 	}
@@ -450,11 +451,22 @@ type failingBody struct {
 	off    int
 	failAt int
 	err    error
+	once   bool
+	failed bool
 }
 
 func (b *failingBody) Read(p []byte) (int, error) {
+	if b.once && b.failed {
+		if b.off >= len(b.data) {
+			return 0, io.EOF
+		}
+		n := copy(p, b.data[b.off:])
+		b.off += n
+		return n, nil
+	}
 	if b.off >= b.failAt {
-		return 0, b.err // sticky, like net/http bodies
+		b.failed = true
+		return 0, b.err // sticky (like net/http bodies) unless once is set
 	}
 	n := copy(p, b.data[b.off:b.failAt])
 	b.off += n
